@@ -152,6 +152,68 @@ CHECKS = {
         design_ref="DESIGN.md section 5, C02",
         note=NOTE_COMMON + "Defect D3 (limit/offset composition) was repaired in /repo. Known findings by trigger: D4, D15, D42.",
     ),
+    "C01": dict(
+        technique="Lean 4 proof: theorems over a hand-written model of the SQL compiler (verbs folded into one SELECT, subquery at markers) relative to an "
+                  "executable reference semantics; both models tied to the code by comparing the frames of real Polars, real SQLite, Spec.run and Sql.run",
+        text="Pdt/Props/C01.lean over Pdt/Model/Sql.lean and Spec.lean: limit_compose (LIMIT max(min(l-o2,n),0) OFFSET o1+o2 selects exactly the rows of two stacked "
+             "slice_head calls, for all lists and integers), compile_slice_on_limit / compile_slice_first, compile_filter_placement (WHERE before, HAVING after "
+             "aggregation), compile_arrange_prepends, compile_summarize_shape, compile_marker_fresh; Pdt/Props/C01Frag.lean proves the refinement Sql.run = "
+             "Spec.run's frame for the row-level fragment when present. The property itself is evaluated on the real code: every generated program (all verbs, "
+             "element-wise / aggregate / window / case / cast expressions, null / duplicate / empty / single-row data) is exported from Polars and SQLite and "
+             "compared (sequence under arrange, multiset otherwise); SQL may only refuse with SubqueryError / NotSupportedError. Both frames are compared with "
+             "the Lean Spec's frame and SQLite's with the Lean SQL-compiler model's, and the Cache / check_subquery states with the front-end model. Partial: "
+             "the full refinement compile-then-evaluate = Spec is by execution, not a theorem; SQLite's and Polars' evaluators are modelled.",
+        design_ref="DESIGN.md section 5, C01",
+        note=NOTE_COMMON + "Known findings by trigger (see known_findings.json); D3, D18, D34, D36, D41 were repaired in /repo.",
+    ),
+    "C04": dict(
+        technique="Lean 4 proof: theorems about the aggregate functions and summarize of the reference semantics; Spec and SQL-compiler model tied to the "
+                  "code by frame comparison of generated aggregation programs on Polars and SQLite",
+        text="Pdt/Props/C04.lean: agg_ignores_nulls (every aggregate depends only on the non-null inputs), agg_empty_is_null, count_counts_non_null, count_all_null, "
+             "count_star_counts_rows, filter_kwarg (the case-rewrite of filter= aggregates exactly the rows where the condition is true), ungrouped_one_row (also "
+             "for empty input), summarize_visible (grouping columns minus overwritten names, then the aggregates; ungrouped result), filter_after_summarize. Tie: "
+             "frames of Polars and SQLite for generated programs (computed / boolean / string / nullable keys, all-null groups, empty tables, verbs before and "
+             "after) vs Spec.run and Sql.run. Partial: 'one row per distinct key combination' is the Spec's definition (partitionIdx) validated by comparison, not "
+             "a separate theorem; mean on floats is compared, not proved.",
+        design_ref="DESIGN.md section 5, C04",
+        note=NOTE_COMMON + "Known findings by trigger: D10, D11, D15, D30, D42, D48 …",
+    ),
+    "C05": dict(
+        technique="Lean 4 proof: sorting and window theorems over the reference semantics (stable insertion sort, key comparison, windowOp); tied by "
+                  "comparing ordered exports and window columns of Polars and SQLite with the Spec",
+        text="Pdt/Props/C05.lean with Lemmas/Sort.lean: cmpKey_descending, cmpKey_null_left/right (nulls placed by nulls_first/last alone), cmpKeys_priority, "
+             "arrange_perm (no row dropped, duplicated or changed), arrange_sorted (sorted for a total preorder), arrange_stable (rows not strictly out of order keep "
+             "their relative order: a later arrange takes priority, the earlier one breaks ties), arrange_no_keys, arrange_sorted_id, slice_after_arrange, "
+             "select_rename_keep_order, filter_keeps_order, evalUnits_length and window_mutate_keeps_rows (one value per row; rows neither dropped nor reordered), "
+             "row_number_spec, rank_spec, window_agg_spec, windowOp_rows, implicit_partition (preprocess_arg writes the grouping columns into partition_by) and "
+             "group_mutate_ungroup_rows. Partial: Polars' rank-based emulation of descending/nulls_last inside over() and SQL's OVER clause are modelled and "
+             "compared, not proved; window functions are generated with total arrange= orders.",
+        design_ref="DESIGN.md section 5, C05",
+        note=NOTE_COMMON + "Known findings by trigger: D1, D2, D39 …",
+    ),
+    "C06": dict(
+        technique="Lean 4 proof: theorems about the join of the reference semantics, the automatic suffix rule and the scope after a join in the front-end model; "
+                  "tied by front-end correspondence and frame comparison",
+        text="Pdt/Props/C06.lean: inner_join_rows / inner_join_mem (exactly the combinations of a left and a right row on which `on` is true), inner_join_count, "
+             "null_key_never_matches (+ under conjunction), left_join_rows, full_join_rows, left_join_keeps_left, cross_join_rows / cross_join_count (full product), "
+             "join_visible; counter_no_collision and auto_suffix_names (no right name, renamed or untouched, equals a left name and the right names stay pairwise "
+             "distinct, for all name lists and suffixes), join_scope / join_scope_meta (every visible or hidden column of either input stays in scope with its "
+             "metadata). Oracle: probe columns through original references (C09's oracle), names, and frames of Polars / SQLite vs Spec.run on join programs with "
+             "duplicate / null keys, empty sides, hidden-name collisions and preceding verbs on both sides.",
+        design_ref="DESIGN.md section 5, C06",
+        note=NOTE_COMMON + "D12 (suffix counter depended on set iteration order) was repaired in /repo. Known findings by trigger: D33, D49, D52.",
+    ),
+    "C07": dict(
+        technique="Lean 4 proof: theorems about the union of the reference semantics and the union checks / scope of the front-end model; tied by front-end "
+                  "correspondence and multiset comparison of frames",
+        text="Pdt/Props/C07.lean: union_all_rows / union_all_count (all rows with multiplicity), union_visible (left names and order, ungrouped), union_by_name "
+             "(matched by name, not position), union_no_hidden (a result row holds exactly the left visible identities), eraseDups_nodup and union_distinct_rows "
+             "(each distinct row once, same row set; nulls equal), union_refused (backend / grouping / differing names refused with the documented error, in the "
+             "code's order), union_scope. Oracle: frames of Polars / SQLite vs Spec.run on programs with permuted column orders, hidden columns, duplicates within "
+             "and across sides, nullable columns, empty sides, chained unions and verbs before / after.",
+        design_ref="DESIGN.md section 5, C07",
+        note=NOTE_COMMON + "D23 was repaired in /repo. Known findings by trigger: D26, D32, D38, D40, D45.",
+    ),
 }
 
 NOT_YET = "check not built yet in this revision of /verif (model and theorems planned in DESIGN.md section 5)"
